@@ -259,3 +259,79 @@ class UiJsonAssigned(Contract):
 
 
 CONTRACTS = CONTRACTS + [UiJsonAssigned]
+
+
+class FormMembersAtomic(Contract):
+    """A refused assignment to a standard member of a form parameter (label, optional, enabled, group,
+    dependency, ...; directly or through register) leaves the form as it was: the dictionary that is
+    written, the list of active members, membership tests and the rules derived from the form."""
+    target = "geoh5py/ui_json/descriptors.py::FormValueAccess.__set__"
+    variant = "native"
+    symbolic = False
+    has_native = True
+    props = ("C15",)
+    bounded_scope = "every FormParameter subclass constructible from simple arguments x every standard member x one value of a wrong type x {attribute assignment, register}; members set before and members never set (exhaustive over the listed combinations)"
+
+    BAD = {str: 1, bool: "yes", type(None): None}
+
+    @staticmethod
+    def _forms():
+        from geoh5py.ui_json import forms as F
+
+        return {
+            "string": lambda **kw: F.StringFormParameter("p", value="abc", **{"label": "P", **kw}),
+            "bool": lambda **kw: F.BoolFormParameter("p", value=True, **{"label": "P", **kw}),
+            "integer": lambda **kw: F.IntegerFormParameter("p", value=3, **{"label": "P", **kw}),
+            "float": lambda **kw: F.FloatFormParameter("p", value=1.5, **{"label": "P", **kw}),
+            "choice": lambda **kw: F.ChoiceStringFormParameter("p", choice_list=["a", "b"], value="a", **{"label": "P", **kw}),
+            "file": lambda **kw: F.FileFormParameter("p", value="a.txt", **{"label": "P", **kw}),
+        }
+
+    def native_cases(self, tier, rng):
+        for kind in self._forms():
+            for preset in (False, True):
+                for how in ("assign", "register"):
+                    yield {"kind": kind, "preset": preset, "how": how}
+
+    @staticmethod
+    def _state(form):
+        return {"form": form.form(), "camel": form.form(use_camel=True), "active": list(form.active), "uijson_validations": dict(form.uijson_validations),
+                "dynamic_validations": dict(form.dynamic_validations), "contains": {m: (m in form) for m in form.valid_members}}
+
+    def native_check(self, case):
+        from geoh5py.ui_json.parameters import BoolParameter, StringParameter, ValueRestrictedParameter
+
+        make = self._forms()[case["kind"]]
+        probe = make()
+        tried = 0
+        for member in probe.valid_members:
+            if member == "value":
+                continue
+            par = getattr(probe, "_" + member)
+            if isinstance(par, ValueRestrictedParameter):
+                good, bad = "disabled", "sometimes"
+            elif isinstance(par, BoolParameter):
+                good, bad = True, "yes"
+            elif isinstance(par, StringParameter):
+                good, bad = "text", 7
+            else:
+                continue
+            form = make(**({member: good} if case["preset"] else {}))
+            before = self._state(form)
+            try:
+                if case["how"] == "assign":
+                    setattr(form, member, bad)
+                else:
+                    form.register({member: bad})
+            except Exception:
+                tried += 1
+                after = self._state(form)
+                if after != before:
+                    diff = [k for k in before if before[k] != after[k]]
+                    return f"{type(form).__name__}: the refused {case['how']} {member} = {bad!r} changed {diff}: {[(before[k], after[k]) for k in diff][:2]} ({case})"
+        if not tried:
+            return f"harness: no assignment was refused for {case} (vacuous)"
+        return None
+
+
+CONTRACTS = CONTRACTS + [FormMembersAtomic]
